@@ -54,7 +54,10 @@ class VectorField:
 
     def __call__(self, point_: Point) -> Vector:
         if not callable(self._point_function):
-            return Vector(self._point_function, self._coordinate_system)
+            # stored components can be written in base scalars of the field coordinate system, eg [-C.y, C.x],
+            # field operators read them as functions of the point, so should applying the field
+            components = _subs_with_point(self._point_function, self._coordinate_system, point_)
+            return Vector(components, self._coordinate_system)
         # Point with general Point type is not checked against coordinate system.
         # It's up to user to make sure that field function works with general Point type.
         if isinstance(
